@@ -125,8 +125,9 @@ def run(chk):
                 chk.violation('ratios_in_unit_interval', {'parts': r[2]}, i, 'each ratio in [0,1], sum <= 1', input_class='ratios')
     # the bookkeeping over a pool's life: the real WorkerInsights/TimeIt objects as an operation-sequence machine vs Mpire.Insights.run
     alines, aimpl, ains = [], [], []
-    for _ in range(500 if chk.tier == 'quick' else 6000):
-        ops = insacc.gen_ops(rng)
+    n_acc = 500 if chk.tier == 'quick' else 6000
+    for k_acc in range(n_acc):
+        ops = insacc.gen_ops(rng, big=k_acc % 25 == 0)       # (every 25th history has bursts that take a counter past 2^15 / 2^16)
         alines.append('insacc ops=' + ','.join(ops))
         line, ins = insacc.run_ops(ops)
         aimpl.append(line)
@@ -139,7 +140,7 @@ def run(chk):
         if ins is not None:
             last = max(k for k, o in enumerate(ops) if o.startswith('S:'))
             n = int(ops[last].split(':')[1])
-            done = sum(1 for o in ops[last:] if o.startswith('T:') and int(o.split(':')[1]) < n)
+            done = sum((1 if o[0] == 'T' else int(o.split(':')[2])) for o in ops[last:] if o[:2] in ('T:', 'B:') and int(o.split(':')[1]) < n)
             if len(ins['n_completed_tasks']) != n or sum(ins['n_completed_tasks']) != done:
                 chk.violation('counts_sum_to_tasks_since_start', {'ops': ops}, ins['n_completed_tasks'], '%d entries summing to %d' % (n, done), input_class='bookkeeping')
             if len(ins['top_5_max_task_args']) > 5 or len(ins['top_5_max_task_args']) != len(ins['top_5_max_task_durations']):
